@@ -281,6 +281,42 @@ theorem normSpaceV_sim (sp : StripFn) (v : Option Value) :
     | none => simp [normSpaceV] at hw
     | some v => simp [normSpaceV] at hw; subst hw; trivial
 
+theorem Loc.attrs_strip (sp : StripFn) (l : Loc) : (l.strip sp).attrs = l.attrs := by
+  obtain ⟨focus, path⟩ := l
+  cases focus with
+  | elem i n kids => cases n <;> rfl
+  | text i d => rfl
+  | comment i d => rfl
+  | pi i t d => rfl
+
+theorem firstAttr_strip (sp : StripFn) (q : QName) (l : List Loc) :
+    firstAttr q (l.map (Loc.strip sp)) = firstAttr q l := by
+  induction l with
+  | nil => rfl
+  | cons x xs ih => simp only [List.map_cons, firstAttr, Loc.attrs_strip, ih]
+
+theorem attrOfV_sim (sp : StripFn) (q : QName) (v : Option Value) :
+    (attrOfV q v).map (Value.strip sp) = attrOfV q (v.map (Value.strip sp)) ∧ OptOk sp (attrOfV q v) := by
+  constructor
+  · cases v with
+    | none => rfl
+    | some v => cases v <;> simp [attrOfV, firstAttr_strip]
+  · intro w hw
+    cases v with
+    | none => simp [attrOfV] at hw
+    | some v => cases v <;> simp [attrOfV] at hw <;> subst hw <;> trivial
+
+theorem attrCountV_sim (sp : StripFn) (v : Option Value) :
+    (attrCountV v).map (Value.strip sp) = attrCountV (v.map (Value.strip sp)) ∧ OptOk sp (attrCountV v) := by
+  constructor
+  · cases v with
+    | none => rfl
+    | some v => cases v <;> simp [attrCountV, Loc.attrs_strip, Function.comp_def]
+  · intro w hw
+    cases v with
+    | none => simp [attrCountV] at hw
+    | some v => cases v <;> simp [attrCountV] at hw <;> subst hw <;> trivial
+
 theorem countV_sim (sp : StripFn) (v : Option Value) :
     (countV v).map (Value.strip sp) = countV (v.map (Value.strip sp)) ∧ OptOk sp (countV v) := by
   constructor
@@ -592,5 +628,9 @@ theorem eval_sim (sp : StripFn) (e : Expr) : ∀ (c : Ctx), c.node.stripped sp =
     intro x y; exact ⟨rfl, trivial⟩
   | normalizeSpace e ih =>
     intro c hc; simp only [Expr.eval]; rw [← (ih c hc).1]; exact normSpaceV_sim sp _
+  | attrOf e q ih =>
+    intro c hc; simp only [Expr.eval]; rw [← (ih c hc).1]; exact attrOfV_sim sp q _
+  | attrCount e ih =>
+    intro c hc; simp only [Expr.eval]; rw [← (ih c hc).1]; exact attrCountV_sim sp _
 
 end XalanModel.C13
